@@ -20,7 +20,7 @@ LEVEL = "model_checking"
 
 
 def validate(ctx, trace, tag):
-    r = vlib.tlc("RestoreTrace.tla", "RestoreTrace.cfg", workers=1, timeout=3000, env={"TRACE": trace},
+    r = vlib.tlc("RestoreTrace.tla", "RestoreTrace.cfg", workers=1, timeout=12000, env={"TRACE": trace},
                  metadir=os.path.join(ctx.out, "tv-" + tag), heap="6g")
     if r.error or r.violated or r.printed("TOOLERR"):
         open(os.path.join(ctx.out, "tv-%s.log" % tag), "w").write(r.out)
@@ -48,7 +48,7 @@ def run(ctx):
     r = vlib.tlc("MCRestore.tla", "MCRestoreOld.cfg", workers=1, timeout=300, metadir=os.path.join(ctx.out, "mc-old"))
     ctx.negative_control(r.violated == "ExactOK", "model: removing entries of another type only with --delete must violate Exact")
     trace = os.path.join(ctx.out, "trace.ndjson")
-    args = ["restore", "--seed", ctx.seed, "--cases", 96 if q else 1600, "--work", os.path.join(ctx.out, "tmp"), "--out", trace]
+    args = ["restore", "--seed", ctx.seed, "--cases", 96 if q else 6000, "--work", os.path.join(ctx.out, "tmp"), "--out", trace]
     rc, out = vlib.vh(args, timeout=9000)
     if rc != 0:
         raise vlib.ToolError("restore driver failed: " + out[-2000:])
